@@ -164,18 +164,28 @@ def clause_count(lines):
     return len(re.findall(r"\b(requires|ensures|invariant|decreases|assert|returns)\b", text)) + text.count(",\n")
 
 
-def splice_fn(text, item, name, problems):
-    """replace the markers of ONE function's text"""
+VACUITY_TAG = "K2V_VACUITY_PROBE"
+
+
+def splice_fn(text, item, name, problems, probe=False):
+    """replace the markers of ONE function's text (probe: an `assert(false)` right after the preconditions — it must FAIL)"""
     loops_present = set(int(x) for x in re.findall(r"__K2V_LOOP_(\d+)_SPEC__", text))
     if item is None:
         item = dict(spec=[], body_start=[], body_end=[], loops={})
     for k in item["loops"]:
         if k not in loops_present:
             problems.append("%s: contract names loop %d but the extracted function has loops %s (anchor lost)" % (name, k, sorted(loops_present)))
+    for k, lp in item["loops"].items():
+        if k in loops_present:
+            for part, mk in (("body_start", "__K2V_LOOP_%d_BODY_START_S__;"), ("body_end", "__K2V_LOOP_%d_BODY_END_S__;"), ("after", "__K2V_LOOP_%d_AFTER_S__;")):
+                if lp[part] and (mk % k) not in text:
+                    problems.append("%s: contract has a `%%loop %d %s` hint but the extracted function has no such anchor (anchor lost)" % (name, k, part))
+    if item.get("body_end") and "__K2V_BODY_END_S__;" not in text:
+        problems.append("%s: contract has a %%body_end hint but the extracted function has no such anchor (unit-typed tail; anchor lost)" % name)
     text = text.replace("__K2V_SPEC__", "\n" + "\n".join(item["spec"]) + "\n" if item["spec"] else "")
     if item.get("attrs"):
         text = text.replace("#[verifier ::loop_isolation(false)]", " ".join(item["attrs"]) + " #[verifier ::loop_isolation(false)]", 1)
-    text = text.replace("__K2V_BODY_START_S__;", "\n".join(item["body_start"]))
+    text = text.replace("__K2V_BODY_START_S__;", "\n".join(item["body_start"] + (["proof { assert(false); } // " + VACUITY_TAG] if probe else [])))
     text = text.replace("__K2V_BODY_END_S__;", "\n".join(item.get("body_end", [])))
     for k in loops_present:
         lp = item["loops"].get(k, dict(spec=[], body_start=[], body_end=[], after=[]))
@@ -190,7 +200,7 @@ ITEM_RE = re.compile(r"//@@ITEM (\w+) (\S+)(?: (\S+))?\n(.*?)//@@END\n", re.S)
 METHOD_TAG = re.compile(r"__K2V_METHOD_(\d+)_(\w+?)__")
 
 
-def assemble(k2v_out, vc, unit):
+def assemble(k2v_out, vc, unit, probe=False):
     """-> (file text, fn_lines: [(first_line, last_line, fn name)], problems, info per fn)"""
     problems = []
     parts = []
@@ -202,7 +212,7 @@ def assemble(k2v_out, vc, unit):
             name = alias or path.rsplit("::", 1)[-1]
             item = vc["items"].get(name)
             seen.add(name)
-            text, nloops = splice_fn(body, item, name, problems)
+            text, nloops = splice_fn(body, item, name, problems, probe)
             parts.append((name, text))
             info[name] = dict(path=path, loops=nloops, clauses=clause_count(item["spec"] + sum([l["spec"] for l in item["loops"].values()], [])) if item else 0,
                               has_contract=bool(item and item["spec"]))
@@ -222,7 +232,7 @@ def assemble(k2v_out, vc, unit):
                 item = vc["items"].get(key) or vc["items"].get(alt)
                 used = key if key in vc["items"] else alt
                 seen.add(used)
-                t, nloops = splice_fn(mtext, item, key, problems)
+                t, nloops = splice_fn(mtext, item, key, problems, probe)
                 out.append("\n//@@FN %s\n" % key)
                 out.append(t)
                 names.append(key)
@@ -319,7 +329,16 @@ def run_unit(scratch, prop, unit, exp, tier):
         for p in problems:
             res["undecided"].append("engine V [%s]: %s" % (unit, p))
         return res
+    # vacuity probes run concurrently with the main run (same extraction, `assert(false)` after every function's preconditions)
+    vac_res = dict(cmds=[], undecided=[])
+    vac_out = {}
+    vth = None
+    if not os.environ.get("KONST_VERIF_NO_VACUITY"):
+        vth = threading.Thread(target=lambda: vac_out.update(v=vacuity_run(r["out"], vc, unit, wd, vac_res)))
+        vth.start()
     vr = run_verus_file(src, wd, rlimit=vc.get("rlimit"))
+    if vth:
+        vth.join()
     res["cmds"].append(vr["cmd"].replace(src, "<scratch>/verus-%s/%s.rs" % (unit, unit)))
     open(os.path.join(VERIF, "logs", "verus-%s.err" % unit), "w").write(vr["raw_err"])
     if vr["timed_out"] or vr["js"] is None:
@@ -401,10 +420,56 @@ def run_unit(scratch, prop, unit, exp, tier):
         if n:
             scan.append("%s x%d" % (kw, n))
     res["assumption_scan"] = ["[%s] %s" % (unit, x) for x in sorted(set(scan))]
-    res["unit_summary"] = [dict(unit=unit, verus_verified=vresults.get("verified", 0), verus_errors=vresults.get("errors", 0),
+    res["vacuity"] = vac_out.get("v")
+    res["cmds"] += vac_res["cmds"]
+    if not res["violations"] and not res["undecided"]:
+        res["undecided"] += vac_res["undecided"]
+    res["unit_summary"] = [dict(unit=unit, vacuity=res["vacuity"], verus_verified=vresults.get("verified", 0), verus_errors=vresults.get("errors", 0),
                                 extracted_functions=len(info), smt_total_ms=js.get("times-ms", {}).get("smt", {}).get("total"),
                                 verus_total_ms=js.get("times-ms", {}).get("total"))]
     return res
+
+
+def vacuity_run(k2v_out, vc, unit, wd, res):
+    """second Verus run of the same unit with `assert(false)` spliced right after every function's preconditions.
+    Every probe must FAIL: a probe that verifies means the contract's `requires` (plus the assumed axioms in scope)
+    is contradictory and the function's proof is vacuous.  A vacuous function makes the unit undecided, never an alarm."""
+    text, fn_lines, problems, info = assemble(k2v_out, vc, unit, probe=True)
+    src = os.path.join(wd, unit + "_vacuity.rs")
+    open(src, "w").write(text)
+    lines = text.splitlines()
+    expected = {}
+    for i, l in enumerate(lines):
+        if VACUITY_TAG in l:
+            fn = fn_at(fn_lines, i + 1)
+            if fn:
+                expected[i + 1] = fn
+    vr = run_verus_file(src, wd, rlimit=vc.get("rlimit"))
+    res["cmds"].append(vr["cmd"].replace(src, "<scratch>/verus-%s/%s_vacuity.rs" % (unit, unit)) + "   # vacuity probes: every one must fail")
+    if vr["timed_out"] or vr["js"] is None or "panicked at" in vr["raw_err"] or vr["rc"] not in (0, 1):
+        res["undecided"].append("engine V [%s]: vacuity run ended abnormally (rc=%s)\n%s" % (unit, vr["rc"], vr["raw_err"][-1200:]))
+        return dict(probes=len(expected), failed_as_required=0, vacuous=[], status="not-run")
+    hit = set()
+    other = []
+    for d in vr["diags"]:
+        if d.get("level") != "error" or "aborting due to" in d.get("message", ""):
+            continue
+        prim = [s for s in d.get("spans", []) if s.get("is_primary")] or d.get("spans", [])
+        ln = prim[0]["line_start"] if prim else 0
+        if "assertion failed" in d.get("message", "") and ln in expected:
+            hit.add(ln)
+        else:
+            other.append("%s @%d" % (d.get("message", "")[:100], ln))
+    if any(not any(f in o for f in FAIL_MSGS) and "rlimit" not in o.lower() and "resource limit" not in o.lower() for o in other):
+        res["undecided"].append("engine V [%s]: vacuity run rejected before verification: %s" % (unit, "; ".join(other[:5])))
+        return dict(probes=len(expected), failed_as_required=0, vacuous=[], status="not-run")
+    vac = sorted(expected[ln] for ln in expected if ln not in hit)
+    # a probe can also be masked by an rlimit / other error in the same function: those are listed, and count as not established
+    if vac:
+        res["undecided"].append("engine V [%s]: vacuity probe did not fail in %s — the preconditions are contradictory or the probe was not reached by the solver "
+                                "(other diagnostics: %s); the proofs of these functions are not counted" % (unit, ", ".join(vac), "; ".join(other[:5]) or "none"))
+    return dict(probes=len(expected), failed_as_required=len(hit), vacuous=vac, other_diagnostics=other[:10], wall_s=round(vr["wall"], 1),
+                status="ok" if not vac else "vacuous")
 
 
 def run_units(scratch, prop, units, tier):
